@@ -106,14 +106,15 @@ Proof. exact below_mh_prob. Qed.
 (* folded 1-D proposals (reflecting boundaries, non-negativity) are reversible: every
    increment t that takes x to y is matched by an increment of the same magnitude
    that takes y back to x, so a symmetric increment law gives a symmetric proposal *)
-Theorem C01_reflect_proposal_reversible : forall lo w x t : Q, (0 < w -> lo <= x -> x <= lo + w ->
-  let y := reflect lo w (x + t) in
-  exists t', (t' == t \/ t' == - t) /\ reflect lo w (y + t') == x)%Q.
+Theorem C01_reflect_proposal_reversible : forall lo w x t : Q,
+  (0 < w)%Q -> (lo <= x)%Q -> (x <= lo + w)%Q ->
+  let y := reflect lo w (x + t)%Q in
+  exists t', ((t' == t)%Q \/ (t' == - t)%Q) /\ (reflect lo w (y + t') == x)%Q.
 Proof. exact reflect_proposal_reversible. Qed.
 
-Theorem C01_abs_proposal_reversible : forall x t : Q, (0 <= x ->
-  let y := abs_fold (x + t) in
-  exists t', (t' == t \/ t' == - t) /\ abs_fold (y + t') == x)%Q.
+Theorem C01_abs_proposal_reversible : forall x t : Q, (0 <= x)%Q ->
+  let y := abs_fold (x + t)%Q in
+  exists t', ((t' == t)%Q \/ (t' == - t)%Q) /\ (abs_fold (y + t') == x)%Q.
 Proof. exact abs_proposal_reversible. Qed.
 
 Print Assumptions C01_reflect_proposal_reversible.
